@@ -21,7 +21,7 @@ t0 = time.time()
 obs = run_cases(exe, cases)
 log('ran in %.1fs' % (time.time() - t0))
 t0 = time.time()
-res = run_judge(u.env_sx(), cases, obs, os.path.join(CACHE, 'smoke'))
+res = run_judge(u.env_sx() + '\n' + u.gouniverse_sx(), cases, obs, os.path.join(CACHE, 'smoke'))
 log('judged in %.1fs' % (time.time() - t0))
 bad = {k: v for k, v in res.items() if v[0] != 'ok'}
 print('total', len(cases), 'judged', len(res), 'bad', len(bad))
